@@ -20,6 +20,10 @@ type TargetSpec struct {
 	Fail        string // "", connect, status, timeout, break, gzip_corrupt
 	FailOffset  int    // for break / gzip_corrupt: offset in the bytes on the wire
 	Status      int    // for Fail == status
+	// FailFirst > 0: only the first FailFirst requests served from this spec fail, later ones succeed
+	// (a target that is restarting, a stale keep-alive connection)
+	FailFirst int
+	served    int
 	// Hold, when non-nil, parks the request until the channel is closed (or the
 	// request context ends): the scrape is "in flight" while the simulation does
 	// something else.
@@ -68,7 +72,8 @@ func (t *Targets) Set(host string, s *TargetSpec) {
 }
 
 var ErrConnect = errors.New("dial tcp: connection refused (simulated target)")
-var ErrBroken = errors.New("unexpected EOF (simulated: body broke off)")
+// ErrBroken is what net/http reports when a connection breaks off in the middle of a body
+var ErrBroken = fmt.Errorf("simulated target: body broke off: %w", io.ErrUnexpectedEOF)
 
 type bodyReader struct {
 	data    []byte
@@ -155,7 +160,19 @@ func (t *Targets) RoundTrip(req *http.Request) (*http.Response, error) {
 			return nil, req.Context().Err()
 		}
 	}
-	if spec == nil || spec.Fail == "connect" {
+	fail := ""
+	if spec != nil {
+		fail = spec.Fail
+		if spec.FailFirst > 0 {
+			t.mu.Lock()
+			spec.served++
+			if spec.served > spec.FailFirst {
+				fail = ""
+			}
+			t.mu.Unlock()
+		}
+	}
+	if spec == nil || fail == "connect" {
 		return nil, ErrConnect
 	}
 	if err := req.Context().Err(); err != nil {
@@ -167,7 +184,7 @@ func (t *Targets) RoundTrip(req *http.Request) (*http.Response, error) {
 		ct = "text/plain; version=0.0.4"
 	}
 	hdr.Set("Content-Type", ct)
-	if spec.Fail == "status" {
+	if fail == "status" {
 		code := spec.Status
 		if code == 0 {
 			code = 500
@@ -181,7 +198,7 @@ func (t *Targets) RoundTrip(req *http.Request) (*http.Response, error) {
 		hdr.Set("Content-Encoding", "gzip")
 	}
 	br := &bodyReader{data: wire, chunks: spec.Chunks, breakAt: -1}
-	switch spec.Fail {
+	switch fail {
 	case "break":
 		br.breakAt = spec.FailOffset
 		if br.breakAt > len(wire) {
